@@ -91,6 +91,17 @@ Proof.
     + apply Hm in H. exact H.
 Qed.
 
+(* while the memo is right about where the files are, GetModifiedTime is the lookup's time stamp *)
+Lemma sc_fs_stat_lookup l memo n :
+  sc_memo_ok l memo ->
+  sc_fs_stat l memo n = (option_map fl_mtime (fst (sc_fs_lookup l memo n)), snd (sc_fs_lookup l memo n)).
+Proof.
+  intro Hm. unfold sc_fs_stat, sc_fs_lookup.
+  destruct (assoc_bytes memo n) as [d|] eqn:Em.
+  - destruct (Hm _ _ Em) as [f Hf]. rewrite (sc_find_file_at _ _ _ _ Hf). reflexivity.
+  - destruct (sc_loader_find l n) as [[d f]|]; reflexivity.
+Qed.
+
 Lemma sc_nth_upd_nth {A} (l : list A) i j x dflt :
   nth j (sc_upd_nth l i x) dflt = nth j l dflt \/ nth j (sc_upd_nth l i x) dflt = x.
 Proof.
@@ -164,6 +175,7 @@ Proof.
     unfold sc_stat_of.
     destruct (nth_error (w_loaders w) i) as [l|] eqn:El; [|split; [exact Hinv|reflexivity]].
     destruct (ld_fs l) eqn:Efs; [|split; [exact Hinv|reflexivity]].
+    rewrite (sc_fs_stat_lookup l (nth i (sh_memo sh) []) n (inv_memo _ _ Hinv _ _ El)).
     destruct (sc_fs_lookup l (nth i (sh_memo sh) []) n) as [o memo'] eqn:Elk. simpl.
     pose proof (sc_fs_lookup_spec l (nth i (sh_memo sh) []) n (inv_memo _ _ Hinv _ _ El)) as [Hs1 Hs2].
     rewrite Elk in Hs1, Hs2. simpl in Hs1, Hs2. split.
